@@ -112,13 +112,100 @@ def _not_overridden(fx, path, _memo={}):
     return _memo[k]
 
 
+def _closure_tags(fx, _memo={}):
+    k = id(fx)
+    if k not in _memo:
+        d = {}
+        for p, g in fx.fns.items():
+            if g.is_closure:
+                sp = g.span
+                d["closure@%s:%d:%d" % (sp.get("file"), sp.get("line"), sp.get("col", 0))] = p
+        _memo[k] = d
+    return _memo[k]
+
+
+def closure_of(fx, fn, operand, depth=0):
+    """The closure a (generic) callable operand denotes, by walking back through moves, borrows and parameter
+    passing of an inlined view to the closure aggregate (or to a local whose type names the closure)."""
+    import cfg as _cfg
+    if depth > 12:
+        return None
+    pl = operand.get("mv") or operand.get("cp")
+    if pl is None:
+        c = operand.get("c") or {}
+        return c.get("closure")
+    if [e for e in pl.get("p", []) if e != "deref"]:
+        return None
+    l = pl["l"]
+    ty = fn.locals[l]["ty"] if l < len(fn.locals) else ""
+    if "closure@" in ty:
+        for tag, p in _closure_tags(fx).items():
+            if tag in ty and ty.count("closure@") == 1:
+                return p
+    ds = _cfg.whole_defs(fn, l)
+    if len(ds) != 1 or ds[0].is_term:
+        return None
+    rv = ds[0].node["rv"]
+    if rv["k"] == "agg" and rv.get("ak") == "closure":
+        return rv.get("closure")
+    if rv["k"] in ("use", "cast"):
+        return closure_of(fx, fn, rv["op"], depth + 1)
+    if rv["k"] == "ref":
+        return closure_of(fx, fn, {"cp": rv["pl"]}, depth + 1)
+    return None
+
+
+FN_CALLS = ("core::ops::function::Fn::call", "core::ops::function::FnMut::call_mut", "core::ops::function::FnOnce::call_once")
+
+
+def resolve_closures(fx, fn):
+    """In an inlined view, calls through a generic callable parameter (`f(x)` inside `fn each<F: FnMut(..)>(f: F)`)
+    and calls that are handed a closure through such a parameter (`thread::spawn(f)`) get their closure resolved
+    now that the helper sits inside its caller.  Returns True if a call became inlinable."""
+    changed = False
+    for b in fn.blocks:
+        t = b["term"]
+        if t["k"] != "call" or b.get("cleanup"):
+            continue
+        f = t.get("fn") or {}
+        if f.get("orig") in FN_CALLS and t["args"] and not (f.get("path") in fx.fns and fx.fns[f["path"]].is_closure):
+            c = closure_of(fx, fn, t["args"][0])
+            if c is not None and c in fx.fns:
+                nf = dict(f)
+                nf.update(path=c, kind="item", local=True, fnvals=[c])
+                t["fn"] = nf
+                changed = True
+            continue
+        # closures passed on through a generic parameter: make them visible as function values of this call
+        fv = list(f.get("fnvals") or [])
+        add = []
+        for a in t["args"]:
+            pl = a.get("mv") or a.get("cp")
+            if pl is None or pl.get("p"):
+                continue
+            ty = fn.locals[pl["l"]]["ty"] if pl["l"] < len(fn.locals) else ""
+            if "closure@" in ty or len(ty) <= 2 or ty in ("F", "G", "Fun"):
+                c = closure_of(fx, fn, a)
+                if c is not None and c in fx.fns and c not in fv and c not in add:
+                    add.append(c)
+        if add and "indirect" not in f:
+            nf = dict(f)
+            nf["fnvals"] = fv + add
+            t["fn"] = nf
+    return changed
+
+
 def inlined(fx, fn, depth=3, stop=(), _seen=None, _cache={}):
     key = (id(fx), fn.path, depth, tuple(sorted(stop)))
-    if _seen is None and key in _cache:
+    synthetic = getattr(fn, "inlined_from", None) is not None
+    if synthetic:
+        key = None
+    if _seen is None and key is not None and key in _cache:
         return _cache[key]
     seen = set(_seen or ()) | {fn.path}
     import expand
-    fn = expand.expanded(fx, fn)
+    if not synthetic:
+        fn = expand.expanded(fx, fn)
     blocks = [dict(b, origin=b.get("origin", fn.path)) for b in copy.deepcopy(fn.blocks)]
     locals_ = list(fn.locals)
     debug = list(fn.debug)
@@ -196,9 +283,9 @@ def inlined(fx, fn, depth=3, stop=(), _seen=None, _cache={}):
     raw["promoted"] = proms
     raw["inlined_rets"] = rets
     out = facts.Fn(raw, fn.crate)
-    out.inlined_from = fn.path
+    out.inlined_from = getattr(fn, "inlined_from", None) or fn.path
     out.fx = fx
     out.n_own = n_own
-    if _seen is None:
+    if _seen is None and key is not None:
         _cache[key] = out
     return out
